@@ -204,6 +204,27 @@ void c17_conv(vf::Tape & t, vf::Ctx & ctx)
   } else {
     ctx.label("conv:gimbal-lock-excluded");
   }
+  // every axis convention (i1, i2, i3) with distinct neighbours, Tait-Bryan (i1 != i3) and proper Euler (i1 == i3):
+  // R == Rot_i1(a0) Rot_i2(a1) Rot_i3(a2); excluded within 1e-6 of the singular middle angle of the convention
+  {
+    const int i1 = static_cast<int>(t.choice(3));
+    const int i2 = (i1 + 1 + static_cast<int>(t.choice(2))) % 3;
+    const int i3 = (i2 + 1 + static_cast<int>(t.choice(2))) % 3;
+    const LD crit = i1 == i3 ? R(i1, i1) : R(i1, i3);  // cos resp. +-sin of the middle angle
+    ctx.label(i1 == i3 ? "conv:proper-Euler" : "conv:Tait-Bryan");
+    if (orc::absl_(orc::absl_(crit) - 1) > 1e-6L) {
+      const auto ea = g.eulerAngles(i1, i2, i3);
+      auto rot = [](int ax, LD a) {
+        VecL w = VecL::Zero(3);
+        w(ax) = a;
+        return MatL(orc::exp_of<orc::SpecSO3, LD>(w));
+      };
+      const MatL Rr = rot(i1, static_cast<LD>(ea(0))) * rot(i2, static_cast<LD>(ea(1))) * rot(i3, static_cast<LD>(ea(2)));
+      ctx.le("eulerAngles(i1,i2,i3) round trip", static_cast<double>(maxabs<LD>(MatL(Rr - R))), std::is_same_v<Sc, float> ? 1e-4 : 1e-9);
+    } else {
+      ctx.label("conv:gimbal-lock-excluded");
+    }
+  }
 }
 
 // SO2 angle(), angle_cw(), angle_ccw(): ranges and congruence
